@@ -553,7 +553,7 @@ theorem parseIsoTime_own {h mi sc ms : Nat} {body : Str} (hh : h < 24) (hmi : mi
   simp only [hmid, Bool.false_eq_true, if_false, Int.toNat_natCast]
   rw [if_pos (by omega)]
 
-theorem splitZone_utc (body : Str) : splitZone (body ++ ['Z']) = some (body, 0) := by
+theorem splitZone_utc (loc : Int) (body : Str) : splitZone loc (body ++ ['Z']) = some (body, 0) := by
   unfold splitZone
   simp
 
@@ -563,7 +563,7 @@ theorem wrap32_zero : wrap32 (0 * 1000) = 0 := by decide
 theorem toUtc_zero (date : Int × Nat × Nat) {h mi sc ms : Nat} (hh : h < 24) (hmi : mi < 60) (hs : sc < 60)
     (hms : ms < 1000) :
     toUtc date ⟨h, mi, sc, ms, false⟩ 0 = ⟨date.1, date.2.1, date.2.2, h, mi, sc, ms⟩ := by
-  unfold toUtc
+  unfold toUtc shiftUtc
   simp only [Bool.false_eq_true, if_false, wrap32_zero, Int.sub_zero]
   have hN : (h * 3600 + mi * 60 + sc) * 1000 + ms < 86400000 := by omega
   have hq : (((h * 3600 + mi * 60 + sc) * 1000 + ms : Nat) : Int) / 86400000 = Int.ofNat 0 := by
@@ -574,15 +574,15 @@ theorem toUtc_zero (date : Int × Nat × Nat) {h mi sc ms : Nat} (hh : h < 24) (
   simp only [addDays, iterDays]
   congr 1 <;> omega
 
-theorem dtParseCode_shape {y1 y2 y3 y4 p1 m1 m2 p2 d1 d2 : Char} {t tt : Str} {date : Int × Nat × Nat}
+theorem dtParseCode_shape {loc : Int} {y1 y2 y3 y4 p1 m1 m2 p2 d1 d2 : Char} {t tt : Str} {date : Int × Nat × Nat}
     {tm : Tm} {off : Int}
     (hu : units (y1 :: y2 :: y3 :: y4 :: p1 :: m1 :: m2 :: p2 :: d1 :: d2 :: 'T' :: t) =
           y1 :: y2 :: y3 :: y4 :: p1 :: m1 :: m2 :: p2 :: d1 :: d2 :: 'T' :: t)
     (hd : parseIsoDate [y1, y2, y3, y4, p1, m1, m2, p2, d1, d2] = some date)
-    (hne : t.isEmpty = false) (hz : splitZone t = some (tt, off)) (ht : parseIsoTime tt = some tm) :
-    dtParseCode (y1 :: y2 :: y3 :: y4 :: p1 :: m1 :: m2 :: p2 :: d1 :: d2 :: 'T' :: t) =
+    (hne : t.isEmpty = false) (hz : splitZone loc t = some (tt, off)) (ht : parseIsoTime tt = some tm) :
+    dtParseCodeAt loc (y1 :: y2 :: y3 :: y4 :: p1 :: m1 :: m2 :: p2 :: d1 :: d2 :: 'T' :: t) =
       some (toUtc date tm off) := by
-  unfold dtParseCode
+  unfold dtParseCodeAt
   simp only [hu, List.length_cons, List.take_succ_cons, List.take_zero, List.drop_succ_cons, List.drop_zero, hd,
     hne, hz, ht]
   rw [if_neg (by omega)]
@@ -594,11 +594,11 @@ theorem units_of_all {s : Str} (h : s.all (fun c => decide (c.toNat < 0x10000)) 
   units_of_small (by simpa [List.all_eq_true] using h)
 
 /-- the library's own output form `yyyy-MM-ddTHH:mm:ss[.zzz]Z` parses to the fields it was printed from -/
-theorem dtParseCode_own {Y M D h mi sc ms : Nat} {body : Str} (hY1 : 1 ≤ Y) (hY2 : Y ≤ 9999)
+theorem dtParseCode_own (loc : Int) {Y M D h mi sc ms : Nat} {body : Str} (hY1 : 1 ≤ Y) (hY2 : Y ≤ 9999)
     (hv : validDate (Y : Int) M D) (hh : h < 24) (hmi : mi < 60) (hs : sc < 60) (hms : ms < 1000)
     (hb : body = pad2 h ++ ':' :: pad2 mi ++ ':' :: pad2 sc ∧ ms = 0 ∨
           body = pad2 h ++ ':' :: pad2 mi ++ ':' :: pad2 sc ++ '.' :: pad3 ms ∧ ms < 1000) :
-    dtParseCode (pad4 Y ++ '-' :: pad2 M ++ '-' :: pad2 D ++ 'T' :: (body ++ ['Z'])) =
+    dtParseCodeAt loc (pad4 Y ++ '-' :: pad2 M ++ '-' :: pad2 D ++ 'T' :: (body ++ ['Z'])) =
       some ⟨(Y : Int), M, D, h, mi, sc, ms⟩ := by
   have hM : M ≤ 12 := hv.2.2.1
   have hD : D ≤ 31 := by
@@ -617,13 +617,33 @@ theorem dtParseCode_own {Y M D h mi sc ms : Nat} {body : Str} (hY1 : 1 ≤ Y) (h
         show sc % 10 < 10 by omega, show ms / 100 < 10 by omega, show ms / 10 % 10 < 10 by omega,
         show ms % 10 < 10 by omega]
   simp only [pad4, pad2, List.cons_append, List.nil_append]
-  rw [dtParseCode_shape (date := ((Y : Int), M, D)) (tt := body) (off := 0) (tm := ⟨h, mi, sc, ms, false⟩)
-    ?_ hdate (by simp) (splitZone_utc body) htime]
+  rw [dtParseCode_shape (loc := loc) (date := ((Y : Int), M, D)) (tt := body) (off := 0) (tm := ⟨h, mi, sc, ms, false⟩)
+    ?_ hdate (by simp) (splitZone_utc loc body) htime]
   · rw [toUtc_zero _ hh hmi hs hms]
   · apply units_of_all
     simp [hsmall, small_digitChar, show Y / 1000 < 10 by omega, show Y / 100 % 10 < 10 by omega,
       show Y / 10 % 10 < 10 by omega, show Y % 10 < 10 by omega, show M / 10 < 10 by omega,
       show M % 10 < 10 by omega, show D / 10 < 10 by omega, show D % 10 < 10 by omega]
+
+/-- the empty string is not a date-time, wherever the process runs -/
+@[simp] theorem dtParseCodeAt_nil (loc : Int) : dtParseCodeAt loc [] = none := by
+  simp [dtParseCodeAt, units]
+
+/-- with offset 0 the instant of a stamp is its wall-clock reading -/
+theorem utcOf_utc {w : Dt} (hc : CivilDt w) : utcOf ⟨w, 0⟩ = w := by
+  obtain ⟨_, hh, hmi, hs, hms⟩ := hc
+  unfold utcOf shiftUtc
+  simp only [Bool.false_eq_true, if_false, Int.zero_mul, Int.sub_zero]
+  have hq : (((w.hour * 3600 + w.minute * 60 + w.second) * 1000 + w.msec : Nat) : Int) / 86400000 = Int.ofNat 0 := by
+    simp only [Int.ofNat_eq_natCast, Int.natCast_zero]; omega
+  have hr : ((((w.hour * 3600 + w.minute * 60 + w.second) * 1000 + w.msec : Nat) : Int) % 86400000).toNat =
+      (w.hour * 3600 + w.minute * 60 + w.second) * 1000 + w.msec := by omega
+  rw [hq, hr]
+  simp only [addDays, iterDays]
+  cases w
+  simp only [Dt.mk.injEq, true_and]
+  simp only at hh hmi hs hms
+  omega
 
 /-! ### the strict XEP-0082 profile is accepted -/
 
@@ -670,7 +690,7 @@ theorem pad4_of_digits {a b c e : Char} (ha : isDigit a = true) (hb : isDigit b 
     show (digitVal a * 1000 + digitVal b * 100 + digitVal c * 10 + digitVal e) % 10 = digitVal e by omega,
     digitChar_digitVal ha, digitChar_digitVal hb, digitChar_digitVal hc, digitChar_digitVal he]
 
-theorem dtParseCode_of_spec {s : Str} {d : Dt} (h : dtParseSpec s = some d) : dtParseCode s = some d := by
+theorem dtParseCode_of_spec (loc : Int) {s : Str} {d : Dt} (h : dtParseSpec s = some d) : dtParseCodeAt loc s = some d := by
   unfold dtParseSpec at h
   split at h
   · split at h
@@ -690,7 +710,7 @@ theorem dtParseCode_of_spec {s : Str} {d : Dt} (h : dtParseSpec s = some d) : dt
           have hvd : validDate ((digitVal y1 * 1000 + digitVal y2 * 100 + digitVal y3 * 10 + digitVal y4 : Nat) : Int)
               (digitVal m1 * 10 + digitVal m2) (digitVal d1 * 10 + digitVal d2) :=
             ⟨by omega, hm1, hm2, hd1, hd2⟩
-          have key := fun body hb => dtParseCode_own (Y := digitVal y1 * 1000 + digitVal y2 * 100 + digitVal y3 * 10 + digitVal y4)
+          have key := fun body hb => dtParseCode_own loc (Y := digitVal y1 * 1000 + digitVal y2 * 100 + digitVal y3 * 10 + digitVal y4)
             (M := digitVal m1 * 10 + digitVal m2) (D := digitVal d1 * 10 + digitVal d2)
             (h := digitVal h1 * 10 + digitVal h2) (mi := digitVal n1 * 10 + digitVal n2)
             (sc := digitVal s1 * 10 + digitVal s2) (ms := ms) (body := body) (by omega) (by omega) hvd hh hmi hs hmsl hb
